@@ -188,3 +188,107 @@ void h_append_and_update(void) {
     int r = aws_byte_buf_append_and_update(to, from);
     if (r == 0) CANARY("ok"); else CANARY("refused");
 }
+
+/* ================================================================== second batch */
+#define GHOSTS_STR() do { GHOSTS(); g_slen = nondet_size_t(); g_sw = nondet_size_t(); } while (0)
+
+void h_from_array(void) { GHOST_RESET();
+    const void *bytes; size_t len;
+    struct aws_byte_buf b = aws_byte_buf_from_array(bytes, len);
+    if (b.buffer) CANARY("non-empty"); else CANARY("empty");
+}
+void h_from_empty_array(void) { GHOST_RESET();
+    const void *bytes; size_t cap;
+    struct aws_byte_buf b = aws_byte_buf_from_empty_array(bytes, cap);
+    if (b.buffer) CANARY("non-empty"); else CANARY("empty");
+}
+void h_from_c_str(void) { GHOSTS_STR();
+    const char *s;
+    struct aws_byte_buf b = aws_byte_buf_from_c_str(s);
+    if (b.buffer) CANARY("non-empty"); else if (s) CANARY("empty string"); else CANARY("null");
+}
+void h_cursor_from_buf(void) { GHOST_RESET();
+    const struct aws_byte_buf *b;
+    struct aws_byte_cursor c = aws_byte_cursor_from_buf(b);
+    if (c.len) CANARY("non-empty"); else CANARY("empty");
+}
+void h_cursor_from_c_str(void) { GHOSTS_STR();
+    const char *s;
+    struct aws_byte_cursor c = aws_byte_cursor_from_c_str(s);
+    if (c.len) CANARY("non-empty"); else if (s) CANARY("empty string"); else CANARY("null");
+}
+void h_cursor_from_array(void) { GHOST_RESET();
+    const void *bytes; size_t len;
+    struct aws_byte_cursor c = aws_byte_cursor_from_array(bytes, len);
+    if (c.len) CANARY("non-empty"); else CANARY("empty");
+}
+void h_read_and_fill_buffer(void) {
+    struct aws_byte_cursor *cur; struct aws_byte_buf *dest;
+    GHOSTS();
+    bool r = aws_byte_cursor_read_and_fill_buffer(cur, dest);
+    if (r) CANARY("filled"); else CANARY("short read");
+}
+void h_read_hex_u8(void) { GHOST_RESET();
+    struct aws_byte_cursor *cur; uint8_t *var;
+    bool r = aws_byte_cursor_read_hex_u8(cur, var);
+    if (r) CANARY("ok"); else CANARY("refused");
+}
+void h_write_to_capacity(void) {
+    struct aws_byte_buf *buf; struct aws_byte_cursor *cur;
+    GHOSTS();
+    struct aws_byte_cursor r = aws_byte_buf_write_to_capacity(buf, cur);
+    if (r.len) CANARY("wrote"); else CANARY("wrote nothing");
+}
+/* the two lookup tables against their specification, all 256 values */
+void h_table_tolower(void) { GHOST_RESET();
+    uint8_t c = nondet_u8();
+    __CPROVER_assert(aws_lookup_table_to_lower_get()[c] == SPEC_LOWER(c), "s_tolower_table[c] == SPEC_LOWER(c)");
+    __CPROVER_assert(aws_lookup_table_to_lower_get()[c] == ((c >= 65 && c <= 90) ? c + 32 : c), "s_tolower_table[c]: ASCII upper case letters +32, everything else unchanged");
+    CANARY("reached");
+}
+void h_table_hex_to_num(void) { GHOST_RESET();
+    uint8_t c = nondet_u8();
+    uint8_t v = aws_lookup_table_hex_to_num_get()[c];
+    __CPROVER_assert(v == SPEC_HEXVAL(c), "s_hex_to_num_table[c] == SPEC_HEXVAL(c)");
+    __CPROVER_assert((v == 255) == !SPEC_ISHEX(c), "255 exactly for non-hex characters");
+    __CPROVER_assert((c >= 48 && c <= 57 ? v == c - 48 : 1) && (c >= 97 && c <= 102 ? v == c - 87 : 1) && (c >= 65 && c <= 70 ? v == c - 55 : 1), "digit values");
+    CANARY("reached");
+}
+
+/* ---------------- trimming with a user predicate ---------------- */
+void *keep_byte_pred_contract = (void *)byte_pred_contract;
+#define H_TRIM(name) void h_##name(void) { const struct aws_byte_cursor *src; aws_byte_predicate_fn *pred; GHOSTS(); \
+    struct aws_byte_cursor r = aws_byte_cursor_##name(src, pred); \
+    if (r.len == 0) CANARY("everything trimmed"); else CANARY("something left"); }
+H_TRIM(right_trim_pred)
+H_TRIM(left_trim_pred)
+H_TRIM(trim_pred)
+void h_satisfies_pred(void) { const struct aws_byte_cursor *src; aws_byte_predicate_fn *pred; GHOSTS();
+    bool r = aws_byte_cursor_satisfies_pred(src, pred);
+    if (r) CANARY("all satisfy"); else CANARY("not all");
+}
+
+/* ---------------- equality / comparison ---------------- */
+#define GHOSTS_CMP() do { GHOSTS_STR(); g_mm = nondet_size_t(); } while (0)
+#define CAN_BOOL(r) do { if (r) CANARY("true"); else CANARY("false"); } while (0)
+void h_array_eq(void) { const void *a; size_t la; const void *b; size_t lb; GHOSTS_CMP(); bool r = aws_array_eq(a, la, b, lb); if (r && la > 0) CANARY("equal, non-empty"); else if (r) CANARY("equal, empty"); else if (la == lb) CANARY("differ"); else CANARY("lengths differ"); }
+void h_array_eq_ignore_case(void) { const void *a; size_t la; const void *b; size_t lb; GHOSTS_CMP(); bool r = aws_array_eq_ignore_case(a, la, b, lb); if (r && la > 0) CANARY("equal, non-empty"); else if (r) CANARY("equal, empty"); else if (la == lb) CANARY("differ"); else CANARY("lengths differ"); }
+void h_array_eq_c_str(void) { const void *a; size_t la; const char *s; GHOSTS_CMP(); bool r = aws_array_eq_c_str(a, la, s); if (r && la > 0) CANARY("equal, non-empty"); else if (r) CANARY("equal, empty"); else CANARY("differ"); }
+void h_array_eq_c_str_ignore_case(void) { const void *a; size_t la; const char *s; GHOSTS_CMP(); bool r = aws_array_eq_c_str_ignore_case(a, la, s); if (r && la > 0) CANARY("equal, non-empty"); else if (r) CANARY("equal, empty"); else CANARY("differ"); }
+#define H_EQ2(name, TA, TB) void h_##name(void) { const TA *a; const TB *b; GHOSTS_CMP(); bool r = aws_##name(a, b); CAN_BOOL(r); }
+H_EQ2(byte_cursor_eq, struct aws_byte_cursor, struct aws_byte_cursor)
+H_EQ2(byte_cursor_eq_ignore_case, struct aws_byte_cursor, struct aws_byte_cursor)
+H_EQ2(byte_buf_eq, struct aws_byte_buf, struct aws_byte_buf)
+H_EQ2(byte_buf_eq_ignore_case, struct aws_byte_buf, struct aws_byte_buf)
+H_EQ2(byte_buf_eq_c_str, struct aws_byte_buf, char)
+H_EQ2(byte_buf_eq_c_str_ignore_case, struct aws_byte_buf, char)
+H_EQ2(byte_cursor_eq_byte_buf, struct aws_byte_cursor, struct aws_byte_buf)
+H_EQ2(byte_cursor_eq_byte_buf_ignore_case, struct aws_byte_cursor, struct aws_byte_buf)
+H_EQ2(byte_cursor_eq_c_str, struct aws_byte_cursor, char)
+H_EQ2(byte_cursor_eq_c_str_ignore_case, struct aws_byte_cursor, char)
+H_EQ2(byte_cursor_starts_with, struct aws_byte_cursor, struct aws_byte_cursor)
+H_EQ2(byte_cursor_starts_with_ignore_case, struct aws_byte_cursor, struct aws_byte_cursor)
+void h_compare_lexical(void) { const struct aws_byte_cursor *l, *r; GHOSTS_CMP(); int c = aws_byte_cursor_compare_lexical(l, r); if (c < 0) CANARY("less"); else if (c > 0) CANARY("greater"); else CANARY("equal"); }
+void h_compare_lookup(void) { const struct aws_byte_cursor *l, *r; const uint8_t *t; GHOSTS_CMP(); int c = aws_byte_cursor_compare_lookup(l, r, t); if (c < 0) CANARY("less"); else if (c > 0) CANARY("greater"); else CANARY("equal"); }
+void h_hash_array_ignore_case(void) { const void *a; size_t n; GHOST_RESET(); uint64_t h = aws_hash_array_ignore_case(a, n); if (n) CANARY("hashed"); else CANARY("empty"); }
+void h_hash_byte_cursor_ptr_ignore_case(void) { const void *c; GHOST_RESET(); uint64_t h = aws_hash_byte_cursor_ptr_ignore_case(c); CANARY("returned"); }
